@@ -97,7 +97,8 @@ func C15(c *Ctx) {
 	} else {
 		c.Broken(err.Error())
 	}
-	for len(gs)*per < nClasses+len(fixed) {
+	total := nClasses + len(fixed)
+	for len(gs)*per < total {
 		g := &gast.Grammar{}
 		for k := 0; k < per; k++ {
 			var cl *gast.ClassSpec
@@ -153,6 +154,12 @@ func C15(c *Ctx) {
 // c15Fixed are classes where the two paths apply case folding differently.
 func c15Fixed() []*gast.ClassSpec {
 	return []*gast.ClassSpec{
+		// a range followed by a range nested in it / touching it / overlapping it
+		{Ranges: [][2]rune{{'a', 'z'}, {'d', 'f'}}},
+		{Ranges: [][2]rune{{'!', '~'}, {'0', '9'}}, Inverted: true},
+		{Ranges: [][2]rune{{'a', 'z'}, {'A', 'F'}}, IgnoreCase: true},
+		{Ranges: [][2]rune{{'a', 'f'}, {'g', 'z'}}},
+		{Ranges: [][2]rune{{'a', 'm'}, {'h', 'z'}, {'0', '5'}, {'3', '4'}}},
 		{Ranges: [][2]rune{{'A', 'z'}}, IgnoreCase: true},
 		{Ranges: [][2]rune{{'Z', 'a'}}, IgnoreCase: true},
 		{UClasses: []string{"Lu"}, IgnoreCase: true},
